@@ -41,6 +41,9 @@ pub struct Case {
     #[serde(default)]
     pub drop_ring: bool,
     pub tape: Vec<u16>,
+    /// Priority schedule (few preemptions, long runs) instead of the tape.
+    #[serde(default)]
+    pub pct: Option<sched::Pct>,
 }
 
 struct SendRing(Ring);
@@ -63,8 +66,9 @@ impl Property for C11 {
             proptest::collection::vec(proptest::bool::weighted(0.4), 2),
             proptest::bool::weighted(0.2),
             proptest::collection::vec(any::<u16>(), 0..160),
+            crate::strat::maybe_pct(3, 150),
         )
-            .prop_map(|(mode, zero_polls, wakers, full_queue, prefill, drop_ring, tape)| Case { mode, zero_polls, wakers, full_queue, prefill, drop_ring, tape })
+            .prop_map(|(mode, zero_polls, wakers, full_queue, prefill, drop_ring, tape, pct)| Case { mode, zero_polls, wakers, full_queue, prefill, drop_ring, tape, pct })
             .boxed()
     }
 
@@ -291,7 +295,7 @@ fn run_case(case: &Case, ctx: &mut Ctx) {
         sim::set_sqpoll_wake_token(Some(SQPOLL_TOKEN));
     }
 
-    let outcome = sched::run(case.tape.clone(), 30_000, false, threads);
+    let outcome = sched::run_either(&case.pct, &case.tape, 30_000, false, threads);
     sim::set_sqpoll_wake_token(None);
     let ring = ring_slot.lock().unwrap().take().map(|r| r.0);
     sim::bind_submitter_here(ring_fd);
